@@ -500,6 +500,10 @@ void DocumentBuilder::proc_instance_line() { currentInstanceLine = &currentTempl
  */
 void DocumentBuilder::instance_name(const char* name, bool templ)
 {
+    if (currentTemplate == nullptr || currentInstanceLine == nullptr) {
+        handle_error(TypeException{"$Instance_lines_must_be_declared_inside_of_an_LSC_template"});
+        return;
+    }
     symbol_t uid;
     if (templ) {
         string instName = string(name);
